@@ -211,6 +211,9 @@ def run(ctx):
     ctx.obligation("python exact sweep agrees with the Coq decision on the rules", bool(sw) == (not r1.ok), "sweep found %d" % len(sw))
     if bool(sw) != (not r1.ok):
         ctx.violation("sweep-vs-coq", "python exact sweep and Coq decision disagree on the rules", {"sweep": [s[1] for s in sw][:5]}, found_input=False)
+    if ctx.tier == "thorough" and r1.ok and r2.ok:
+        # C07_rules is a 40 s vm_compute that coqchk re-does with its slow lazy machine (> 20 min): factory only
+        ctx.coqchk(["C07_factory"], timeout=1500)
     if ctx.tier == "thorough":
         # measured exactness degrees (reported, not demanded beyond the documented order)
         deg = {}
